@@ -199,6 +199,17 @@ func genRecv(r *core.Rng, n int, p *KPlan, pct int) {
 	}
 }
 
+// genSendErr makes some sendto calls fail (ENOBUFS, ECONNREFUSED, EPERM, EINTR).
+func genSendErr(r *core.Rng, n int, p *KPlan) {
+	for i := 0; i < n; i++ {
+		e := 0
+		if r.Chance(1, 5) {
+			e = core.Pick(r, 105, 111, 1, 4)
+		}
+		p.SendErr = append(p.SendErr, e)
+	}
+}
+
 func genSetter(r *core.Rng) KOp {
 	op := KOp{}
 	switch r.Intn(7) {
@@ -288,6 +299,9 @@ func GenKPlanC08(r *core.Rng) *KPlan {
 		recvPct = 0
 	}
 	genFaults(r, 3*n+6, p, errnoPct, unsolPct, stalePct, delayPct)
+	if r.Chance(1, 6) {
+		genSendErr(r, 3*n+4, p)
+	}
 	if recvPct > 0 {
 		genRecv(r, 12*n, p, recvPct)
 	}
@@ -397,6 +411,9 @@ func GenKPlanC17(r *core.Rng) *KPlan {
 	errnoPct := core.Pick(r, 0, 15, 40)
 	unsolPct := core.Pick(r, 0, 20)
 	genFaults(r, 2*n+8, p, errnoPct, unsolPct, 0, 0)
+	if r.Chance(1, 4) {
+		genSendErr(r, 2*n+4, p)
+	}
 	if r.Chance(1, 3) {
 		genRecv(r, 6*n, p, 20)
 	}
